@@ -441,7 +441,7 @@ func checkPairs(ctx *Context, pairs []string) {
 		if pairs[i] == "" {
 			ctx.Errorf("in -a option: key %d is empty", (i/2)+1)
 		}
-		if strings.ContainsAny(pairs[i], "\"'>/=") {
+		if strings.ContainsAny(pairs[i], "\"'>/=<&") || strings.IndexAny(pairs[i], "0123456789-.") == 0 {
 			ctx.Errorf("in -a option: key %d contains invalid characters", (i/2)+1)
 		}
 		for _, c := range pairs[i] {
